@@ -4,7 +4,7 @@
 (* relation as JSON so that covering walks can be replayed on the implementation.                                  *)
 EXTENDS Vec, TLC, Json
 
-CONSTANTS Vals, MaxLen, MaxCnt, Its, RLens, Ops, Alias
+CONSTANTS Vals, MaxLen, MaxCnt, Its, RLens, Ops, Alias, Near
 
 VARIABLES st, lbl, ret
 vars == <<st, lbl, ret>>
@@ -13,7 +13,7 @@ Init == /\ st = InitState
         /\ lbl = Lbl("init", 0, 0, 0, 0, 0, 0, "", <<>>)
         /\ ret = NoRet
 
-Next == \E lb \in LabelsOf(st, Ops, Vals, MaxLen, MaxCnt, Its, RLens, Alias) :
+Next == \E lb \in LabelsOf(st, Ops, Vals, MaxLen, MaxCnt, Its, RLens, Alias, Near) :
           LET r == Step(st, lb) IN
           /\ st' = r.st
           /\ lbl' = lb
@@ -29,7 +29,7 @@ NextRandom ==
   \E o \in {RandomElement(IF st[c].ex
                            THEN (Ops \ {"destroy"}) \cup (IF RandomElement(1..12) = 1 THEN {"destroy"} \cap Ops ELSE {})
                            ELSE Ops \cap (CtorOps1 \cup {"ctorCopy", "ctorMove", "ctorFromVector"}))} :
-  LET S == OpLabels(st, c, o, Vals, MaxLen, MaxCnt, Its, RLens, Alias) IN
+  LET S == OpLabels(st, c, o, Vals, MaxLen, MaxCnt, Its, RLens, Alias, Near) IN
   IF S = {} THEN UNCHANGED vars
   ELSE \E lb \in {RandomElement(S)} :
          LET r == Step(st, lb) IN
@@ -50,7 +50,7 @@ Inv == /\ TypeOK(st)
        /\ SizeLeCap(st)
        /\ InlineMeansN(st)
        /\ PristineImpliesInline(st)
-       /\ \A c \in Slots : Len(st[c].vals) <= MaxLen
+       /\ \A c \in Slots : Len(st[c].vals) <= MaxLen \/ Len(st[c].vals) <= Limit(c)
 
 StepProps == [][CapMonotoneStep(st, lbl', st') /\ ReserveStep(st, lbl', st')]_vars
 =============================================================================
